@@ -52,3 +52,19 @@ CHECKS["C03"] = {
          "what": "processExtensions/DispatchOperation hook order for every list of 0..3 extensions over 5 hook subsets"},
     ],
 }
+
+_HTTP = {"pkg": "graphql/handler", "workers": 8}
+CHECKS["C09"] = {
+    "assumptions": ["http.ResponseWriter fake freezes headers at WriteHeader like net/http; request built in memory (no sockets)"],
+    "harnesses": [
+        dict(_HTTP, harness="Harness_C09_http", setup="Setup_C09_http", reach=["http.executed", "http.refused"],
+             what="Server.ServeHTTP -> GET.Do / POST.Do -> real Executor over 10 documents x operationName x 9 Accept headers x 4 ResponseHeaders configurations"),
+        dict(_HTTP, harness="Harness_C09_malformed", setup="Setup_C09_malformed", reach=["bodies.rejected", "bodies.ok"],
+             what="malformed bodies / query strings on 4 HTTP transports: the answer carries a Content-Type"),
+        dict(_HTTP, harness="Harness_C09_fallbacks", setup="Setup_C09_fallbacks", reach=["fallback.checked"],
+             what="Server.ServeHTTP answers when no transport supports the request"),
+    ],
+}
+CHECKS["C10"]["harnesses"].append(
+    dict(_HTTP, harness="Harness_C10_bodies", setup="Setup_C10_bodies", reach=["bodies.rejected", "bodies.ok"],
+         what="malformed bodies / query strings on POST, GET, urlencoded form and application/graphql transports through the real Executor; recover hook must not run"))
